@@ -792,6 +792,12 @@ class EReference(EStructuralFeature):
         self._eopposite = value
         if value:
             value._eopposite = self
+            # both ends now hold a value for the 'eOpposite' meta-reference:
+            # record it like any other set feature so that it is serialized
+            meta = getattr(EReference, 'eOpposite_', None)
+            if meta is not None:
+                self._isset[meta] = None
+                value._isset[meta] = None
 
     @property
     def container(self):
